@@ -35,3 +35,5 @@ SPEC = {'id': 'C09',
 
 SPEC['rule'] += (' Added after the seeded-change rounds: ' +
     'Concurrent streams over one stalling writer; paddings: 64 KiB random padding buffers, 3 MiB of consecutive paddings decoded in a child process with a 32 MiB stack limit (bounded memory, no recursion); too-long prefixes decided at the third prefix byte (oracle, independent of the model); every case evaluated twice in different orders (vh.Independent).')
+
+SPEC['thorough_passes'] = 6  # the thorough tier runs the whole harness under this many consecutive seeds
